@@ -344,6 +344,44 @@ fn large_case(st: &mut Stats, rng: &mut Rng) {
     }
 }
 
+/// Orders at and just beyond 1024 (vectorised / unrolled / stack-vs-heap code paths switch at such sizes). The matrix is a
+/// shifted "cyclic" dominant pattern: row i carries its dominant entry in column (i+s) mod n, so that every column needs a
+/// genuine row exchange, the permutation is one long cycle (not an involution), and for s = 1 the ONLY large candidate of the
+/// first column sits in the last row; a sprinkling of small entries (none in the first four columns' upper part) fills in.
+fn huge_case(st: &mut Stats, rng: &mut Rng) {
+    let n = *rng.pick(&[1024usize, 1025, 1027, 1028, 1032, 1040]);
+    let s = *rng.pick(&[1usize, 1, 2, 3, 517]);
+    let mut a = vec![vec![0.0f64; n]; n];
+    for i in 0..n { a[i][(i + s) % n] = (rng.int(20, 40) as f64) * if rng.bool() { 1.0 } else { -1.0 }; }
+    for _ in 0..3 * n { let (i, j) = (rng.usize(0, n - 1), rng.usize(4, n - 1)); if a[i][j] == 0.0 { a[i][j] = rng.int(-3, 3) as f64; } }
+    let xs: Vec<f64> = (0..n).map(|_| rng.int(-3, 3) as f64).collect();
+    let b: Vec<f64> = (0..n).map(|i| (0..n).map(|j| a[i][j] * xs[j]).sum()).collect();
+    // (strict dominance of the shifted pattern, about 3 small entries per row: well conditioned; judged by the backward error and,
+    //  the data being small integers with a planted integer solution, by the distance to that solution)
+    st.next_case();
+    let desc = || format!("T=f64 n={} class=huge-n-cyclic-dominant shift={} (row i dominant in column (i+shift) mod n; replay by unit)", n, s);
+    for solver in ["solve_basic", "solve_lu"] {
+        let mut m = mat_f64(&a);
+        let bv = Vector::create(b.clone());
+        let out = catch(|| if solver == "solve_basic" { m.solve_basic(&bv) } else { m.solve_lu(&bv) });
+        st.eval();
+        match out {
+            Outcome::Ok(x) => {
+                let x = x.vec;
+                if x.len() != n || !fl::all_finite(&x) { st.violation(&format!("C01:{}:f64:nonfinite-or-length", solver), format!("{} returned a non-finite or mis-sized vector; {}", solver, desc())); continue; }
+                let (r, an, xn, bn) = fl::residual_real(&a, &x, &b);
+                let eta = fl::backward_error(r, an, xn, bn);
+                st.max("f64:max_eta_over_tau", eta / tau(n));
+                let dist = x.iter().zip(&xs).fold(0.0f64, |m, (p, q)| m.max((p - q).abs()));
+                if !(eta <= tau(n)) || !(dist <= 1e-6) { st.violation(&format!("C01:{}:f64:backward-error", solver), format!("{} backward error {:e} (limit {:e}), distance to the planted integer solution {:e}; {}", solver, eta, tau(n), dist, desc())); }
+            }
+            other => st.violation(&format!("C01:{}:f64:refused-nonsingular", solver), format!("{} {}; {}", solver, other.describe(), desc())),
+        }
+    }
+    st.count("huge-n-cases");
+    st.nontrivial(hmix(hash_str("huge-n"), (n * 1000 + s) as u64 ^ rng.u64()));
+}
+
 pub fn run(ctx: &Ctx) -> Report {
     // unit layout: [0, NP) permutation sweep units; then random units
     let mut perms: Vec<Vec<usize>> = vec![];
@@ -365,6 +403,8 @@ pub fn run(ctx: &Ctx) -> Report {
                 }
             }
         } else {
+            // (one unit in 1300 also runs a case of order >= 1024: three per quick run, about 150 per thorough run)
+            let mut huge_turn = (u - np) % 1300 == 7;
             for _ in 0..10 {
                 let n = rng.usize(1, 8);
                 let sel = rng.below(10);
@@ -389,6 +429,7 @@ pub fn run(ctx: &Ctx) -> Report {
                 } else {
                     large_case(st, rng);
                 }
+                if huge_turn { huge_turn = false; huge_case(st, rng); }
             }
         }
     });
